@@ -558,11 +558,14 @@ def run_real(w, limit=10000):
     s = BacktrackSolver(pb, **kw)
     mode = w.get("mode", "solve").replace("_q", "")
     if mode == "solve":
-        sols = []
+        sols, kept = [], []
         for x in s.solve():
             sols.append([int(v) for v in x])
+            kept.append(x)
             if len(sols) > limit or (w.get("partial") is not None and len(sols) >= w["partial"]):
                 break
+        if w.get("kind") == "yielded-solution-changed-afterwards":
+            return [[int(v) for v in x] for x in kept] != sols, s.get_statistics()
         return sols, s.get_statistics()
     best = s.minimize(w["objective"]) if mode == "minimize" else s.maximize(w["objective"])
     return ([] if best is None else [[int(v) for v in best]]), s.get_statistics()
@@ -624,6 +627,8 @@ def replay_solve(r):
         return any(s_ not in sem for s_ in sols), f"real={sols[:4]} semantic={sem[:4]}"
     if st == "error":
         return False, f"real run failed: {res}"
+    if kind == "yielded-solution-changed-afterwards":
+        return res is not None and res[0] is True, f"arrays yielded by solve() compared at the end with their value when yielded: changed={res and res[0]}"
     sols, stats = res
     sem = semantic_solutions(r)
     info = f"real={sols[:6]} semantic={sem[:6]}"
